@@ -124,6 +124,7 @@ def _history(N: int, K: int | None, e: int | None, steps: list[int]) -> None:
     opened: list[tuple[typing.Any, int]] = []  # (response, sock id)
     ext = {"timeout": {"pool": 0, "read": 5, "connect": 5, "write": 5}}
     P.note(N=N, K=K, e=e, steps=steps)
+    P.reached()
 
     def after(step: str, before_open: list[typing.Any], was_idle: dict[int, bool], was_expired: dict[int, bool],
               idle_before: int, need_room: bool) -> None:
